@@ -174,7 +174,7 @@ def fake_self(statuses, tss, owners, hbs, max_pending):
     return SimpleNamespace(app=app, status_index=index, invocation_status_record=recs,
                            runner_last_heartbeat={k: v for k, v in hbs.items() if v is not None})
 
-def mem_pending(s0: int, t0: float, s1: int, t1: float, now: float, max_pending: float) -> bool:
+def mem_pending(s0: int, t0: int, s1: int, t1: int, now: int, max_pending: int) -> bool:
     """
     pre: 0 <= s0 <= 3 and 0 <= s1 <= 3
     pre: 0 <= max_pending <= 1e9 and -1e12 <= t0 <= 1e12 and -1e12 <= t1 <= 1e12 and -1e12 <= now <= 1e12
@@ -186,7 +186,7 @@ def mem_pending(s0: int, t0: float, s1: int, t1: float, now: float, max_pending:
     exp = {f"inv{i}" for i, (s, t) in enumerate([(s0, t0), (s1, t1)]) if STS[s] == St.PENDING and now - t >= max_pending}
     return got == exp
 
-def mem_running(s0: int, o0: int, s1: int, o1: int, hb1: float, p1: bool, hb2: float, p2: bool, now: float, timeout: float) -> bool:
+def mem_running(s0: int, o0: int, s1: int, o1: int, hb1: int, p1: bool, hb2: int, p2: bool, now: int, timeout: int) -> bool:
     """
     pre: 0 <= s0 <= 3 and 0 <= s1 <= 3 and 0 <= o0 <= 2 and 0 <= o1 <= 2
     pre: 0 <= timeout <= 1e9 and -1e12 <= hb1 <= 1e12 and -1e12 <= hb2 <= 1e12 and -1e12 <= now <= 1e12
@@ -204,7 +204,7 @@ def mem_running(s0: int, o0: int, s1: int, o1: int, hb1: float, p1: bool, hb2: f
     exp = {f"inv{i}" for i, (s, o) in enumerate([(s0, o0), (s1, o1)]) if STS[s] == St.RUNNING and stale(o)}
     return got == exp
 
-def mem_twin(s0: int, t0: float, now: float, max_pending: float) -> bool:
+def mem_twin(s0: int, t0: int, now: int, max_pending: int) -> bool:
     """
     pre: 0 <= s0 <= 3 and 0 <= max_pending <= 1e9 and -1e12 <= t0 <= 1e12 and -1e12 <= now <= 1e12
     post: _
@@ -212,7 +212,7 @@ def mem_twin(s0: int, t0: float, now: float, max_pending: float) -> bool:
     mem_pending(s0, t0, 0, 0.0, now, max_pending)
     return False
 
-def mem_canary_strict(s0: int, t0: float, now: float, max_pending: float) -> bool:
+def mem_canary_strict(s0: int, t0: int, now: int, max_pending: int) -> bool:
     """
     pre: 0 <= s0 <= 3 and 0 <= max_pending <= 1e9 and -1e12 <= t0 <= 1e12 and -1e12 <= now <= 1e12
     post: _
@@ -498,10 +498,10 @@ def run(ctx: Ctx) -> None:
                               "Mem/SQLite register_runner_heartbeats/_get_active_runners/get_running_invocations_for_recovery (heartbeat histories)",
                               "core_tasks.recover_pending_invocations/recover_running_invocations (line-level twins) + set_invocation_status/reroute_invocations twins"]
     ctx.bounds = {"sql": "one invocation row (status in {PENDING, RUNNING, other}, owner in {NULL, r1, r2}), two heartbeat rows (present/absent), clock, limits: unbounded reals",
-                  "mem scans": "2 invocations, 2 runners, symbolic real-valued timestamps/heartbeats/clock in [-1e12, 1e12], limits in [0, 1e9] (no NaN/inf)",
+                  "mem scans": "2 invocations, 2 runners, symbolic integer-valued timestamps/heartbeats/clock in [-1e12, 1e12], limits in [0, 1e9]: every boundary (age == limit) is exact, no rounding",
                   "heartbeat histories": "4 ops over 8 letters (heartbeat r1/r2 with either atomic-service flag, clock advance 0/30/60/61 s; timeout 60 s)",
                   "recovery run": f"2-3 invocations, any subset fresh, owner moves one of them (PENDING->RUNNING/KILLED or RUNNING->SUCCESS/KILLED) at preemption point 0..{kmax}; both backends"}
-    ctx.stubs += ["mem scans run on a SimpleNamespace `self` with symbolic floats (CrossHair models float as real)", "clock = CounterClock in both orchestrator modules",
+    ctx.stubs += ["mem scans run on a SimpleNamespace `self` with symbolic integer-valued instants (the claim is in exact arithmetic; one rounding of `now` in doubles is outside it)", "clock = CounterClock in both orchestrator modules",
                   "status timestamps forced by direct state construction", "CoopLock, sqlite timeout=0, sync history"]
     ctx.assumptions += ["exact arithmetic: `now - limit >= ts` and `now - ts >= limit` differ in doubles by at most one rounding of `now` (~2e-7 s): outside the claim",
                         "the recovery task runs against ONE concurrent owner step (one preemption)"]
